@@ -467,7 +467,22 @@ def run(tier, only=None):
 
 
 def replay(path):
+    """re-compile exactly the recorded instance with the recorded settings on the current tree and re-evaluate the postcondition"""
     import json
     d = json.load(open(path))
-    print(json.dumps(d.get("replay"), indent=1, default=str)[:3000])
-    return 1
+    print(json.dumps({k: d.get(k) for k in ("obligation", "program", "definitions", "profile", "uncompute", "blame", "replay")}, indent=1, default=str)[:3000])
+    prop = d["obligation"].split(".")[0]
+    rs = []
+    if d.get("program"):
+        origin = d["obligation"].split("[")[1].split(",")[1]
+        rs = job(("program", (origin, d["program"]), d.get("profile", "default"), prop))
+    else:
+        for inst in formula_family(d.get("tier", "quick"), 0):
+            if f"formula,{key(repr(inst))}" in d["obligation"]:
+                rs = job(("formula", inst, "-", prop))
+    bad = [r for r in rs if r["name"] == d["obligation"] and r["status"] == REFUTED]
+    if bad:
+        print("REPRODUCED", bad[0]["name"], json.dumps(bad[0]["replay"].get("failure"), default=str))
+        return 1
+    print("NOT-REPRODUCED" if any(r["name"] == d["obligation"] for r in rs) else "NOT-FOUND")
+    return 0 if any(r["name"] == d["obligation"] for r in rs) else 2
